@@ -530,15 +530,25 @@ func callBuiltin(caller *frame, callpos token.Pos, fn *ssa.Builtin, args []value
 		}
 		// grow exactly like the Go runtime for the target element size
 		esz := int64(8)
+		var elemT types.Type
 		if st, ok := fn.Type().(*types.Signature); ok && st.Params().Len() > 0 {
 			if sl, ok := st.Params().At(0).Type().Underlying().(*types.Slice); ok {
 				esz = i.sizes.Sizeof(sl.Elem())
+				elemT = sl.Elem()
 			}
 		}
 		newcap := growslice(cap(a0), len(a0)+len(add), esz)
 		r := make([]value, len(a0), newcap)
 		copy(r, a0)
-		return append(r, add...)
+		r = append(r, add...)
+		if elemT != nil {
+			// the spare capacity is zeroed memory (a later reslice may expose it)
+			spare := r[len(r):cap(r)]
+			for k := range spare {
+				spare[k] = zero(elemT)
+			}
+		}
+		return r
 
 	case "copy":
 		dst := args[0].([]value)
